@@ -1,2 +1,6 @@
+pub mod c06;
+pub mod c07;
+pub mod c08;
+pub mod c0910;
 pub mod ros;
 pub mod uni;
